@@ -181,6 +181,15 @@ def corpus(W: World) -> list:
         [['new', None, [['violation_door_type', N]]], ['new', None, []]],
         [['new', None, [['is_color', ix(int(W.w.unpassed))]]], ['new', None, [['is_color', N]]], ['new', None, []]],
     ]
+    # unequal values with EQUAL hashes (the memo is keyed by the parameters, never by their hash): both orders
+    from ..impl.c17conf import CollideA, CollideB
+    ca, cb = ix(CollideA), ix(CollideB)
+    fa, fb = (some_fd(['fd', 'absent', 'absent', W.w.rests.index({int: c}), True, False]) for c in (CollideA, CollideB))
+    for n in ('violation_type', 'violation_door_type', 'violation_param_type', 'violation_return_type'):
+        hs.append([['new', None, [[n, ca]]], ['new', None, [[n, cb]]], ['new', None, [[n, ca]]]])
+        hs.append([['new', None, [[n, cb]]], ['new', None, [[n, ca]]]])
+    hs.append([['new', None, [['hint_overrides', fa]]], ['new', None, [['hint_overrides', fb]]], ['again', None, 0]])
+    hs.append([['new', None, [['hint_overrides', fb]]], ['new', None, [['hint_overrides', fa]]]])
     return hs
 
 
